@@ -1,5 +1,6 @@
 """C31 -- bloom filter: no false negatives + race freedom (family K, specs/Bloom)."""
 import os
+import time
 import vlib
 
 PROPS = ["C31"]
@@ -30,6 +31,18 @@ CHECK_DEADLOCK FALSE
 AS_IS = '"maycontain-unlocked", "clear-unlocked"'
 
 
+_T = [time.time()]
+
+
+def _t(ctx, label):
+    """stage timing into the evidence notes (and stderr when VERIF_TIMING is set)"""
+    now = time.time()
+    ctx.notes.append("%s: %.1fs" % (label, now - _T[0]))
+    if os.environ.get("VERIF_TIMING"):
+        print("  [timing] %s %.1fs" % (label, now - _T[0]))
+    _T[0] = now
+
+
 def judge_suspects(ctx, sd, path, n_events):
     """behaviours on which the real filter did not follow the functional specification were re-logged as observed
     traces: TLC evaluates the C31 invariants on every observed state (observation mode). Only an invariant
@@ -42,6 +55,7 @@ def judge_suspects(ctx, sd, path, n_events):
 
 def run(ctx):
     sd = ctx.stage()
+    _T[0] = time.time()
     q = ctx.quick
     ctx.assume("bit positions are an abstract function key -> positions; in R1/R2 it ranges over all assignments on a small "
                "position set (byte borders) and is imposed on the real filter through stub hashing.Hasher objects; in R3 "
@@ -71,6 +85,7 @@ def run(ctx):
     elif ra.ok:
         ctx.broken.append("lock-discipline model with the code's deviations switched on found no race: model is wrong")
 
+    _t(ctx, "R1 model checking")
     exe = ctx.go_build("vh-bloom")
     # ---- R2a: transition cover of the sequential specification replayed on the real filter
     open(os.path.join(sd, "gen.cfg"), "w").write(CFG % dict(
@@ -85,6 +100,7 @@ def run(ctx):
     if g.ok and g.behaviours == 0:
         ctx.broken.append("behaviour export produced nothing")
     judge_suspects(ctx, sd, sus, int(r.stats.get("suspect_events", 0)))
+    _t(ctx, "R2a transition cover + replay")
     # ---- R2b: long random behaviours (3 keys)
     open(os.path.join(sd, "sim.cfg"), "w").write(CFG % dict(
         base, spec="GenSpec", log="LogAppend", depth=30, keys='"a","b","c"', rest="ACTION_CONSTRAINT EmitFull"))
@@ -94,6 +110,7 @@ def run(ctx):
     r2 = ctx.vh(exe, ["replay", beh2, sus2], timeout=900)
     ctx.cov(traces_validated_against_impl=int(r2.stats.get("behaviours", 0)), evaluations=int(r2.stats.get("steps", 0)))
     judge_suspects(ctx, sd, sus2, int(r2.stats.get("suspect_events", 0)))
+    _t(ctx, "R2b simulation + replay")
     # ---- R3: real hashers (keccak/blake2b/fnv/sha256), real sizes (5 .. 2048 bytes, default filter), random keys
     tr = os.path.join(sd, "trace.ndjson")
     nt, ln = (30, 120) if q else (300, 300)
@@ -125,6 +142,7 @@ def run(ctx):
                     break
             return evs
         vlib.selftest_rejects(ctx, sd, "Trace_Bloom", "Trace_Bloom_obs.cfg", tr, lost_bit)
+    _t(ctx, "R3 record + trace validation")
     # ---- race half: scenarios enumerated by TLC from the lock-discipline table, run under the race detector
     rexe = ctx.go_build("vh-bloom", race=True)
     scen = ctx.path("scenarios.ndjson")
@@ -137,12 +155,13 @@ def run(ctx):
             if gs.ok and gs.behaviours == 0:
                 ctx.broken.append("scenario export produced nothing")
             out.write(open(part).read())
-    rr = ctx.vh(rexe, ["race", scen, 200 if q else 600], timeout=1500)
+    rr = ctx.vh(rexe, ["race", scen, 150 if q else 600], timeout=1500)
     ctx.cov(traces_validated_against_impl=int(rr.stats.get("scenarios", 0)),
             evaluations=int(rr.stats.get("goroutine_iterations", 0)),
             distinct_nontrivial=int(rr.stats.get("distinct_scenarios", 0)),
             race_scenarios=int(rr.stats.get("scenarios", 0)), race_observed=int(rr.stats.get("race_observed", 0)),
             race_predicted_by_model=int(rr.stats.get("race_predicted", 0)))
+    _t(ctx, "race scenarios")
     ctx.cov(rule="sequential half: every transition of the Bloom specification's state graph (2 keys, filter of 2-3 bytes, 1-2 "
                  "hash functions, every assignment of keys to byte-border bit positions) replayed on the real filter built with "
                  "stub hashers, comparing MayContain answers and the bit set; distinct = distinct (configuration, source bits, "
